@@ -8,6 +8,8 @@ import Lomond.Model.Frame
 import Lomond.Model.Http
 import Lomond.Model.Core
 import Lomond.Model.Persist
+import Lomond.Model.Proxy
+import Lomond.Model.Transport
 
 namespace Lomond.Driver
 open Lomond Lomond.Core
@@ -214,9 +216,84 @@ def runPersist (line : String) : String :=
       " ".intercalate (res.1.map showPersistObs ++
         [match res.2 with | .exited => "END:exited" | .running => "END:running"])
 
+/-! ### C19: `proxy <cfg> | <reads>` -/
+
+def showOptStr : Option Http.Str → String
+  | none => "N"
+  | some s => "s" ++ hexOfBytes s
+
+def showFailKind : Proxy.FailKind → String
+  | .badUrl => "bad_url" | .badPort => "bad_port" | .proxyConnect => "proxy_connect" | .connect => "connect"
+  | .noHost => "no_host" | .writeErr => "write_err" | .readErr => "read_err" | .timeout => "timeout"
+  | .parseEof => "parse_eof" | .parseTooLong => "parse_too_long"
+  | .proxyStatus c => "proxy_status=" ++ Http.showStatus c
+  | .wrap => "wrap" | .requestFailed => "request_failed"
+
+def showIo : Proxy.Io → String
+  | .ev .connecting => "E:connecting"
+  | .ev (.connectFail k) => "E:connect_fail:" ++ showFailKind k
+  | .ev (.connected p) => "E:connected:" ++ showOptStr p
+  | .connectTo h p s => "C:" ++ showOptStr h ++ ":" ++ toString p ++ ":" ++ (if s then "1" else "0")
+  | .write tls bs ok => (if ok then "W:" else "WF:") ++ (if tls then "1" else "0") ++ ":" ++ hexOfBytes bs
+  | .read (.data d) => "R:" ++ hexOfBytes d
+  | .read .err => "R:err"
+  | .read .timeout => "R:timeout"
+  | .wrap h ok => "T:" ++ showOptStr h ++ ":" ++ (if ok then "1" else "0")
+
+def parseRead (t : String) : Option Proxy.ReadOutcome :=
+  if t = "x" then some .err
+  else if t = "t" then some .timeout
+  else if t.startsWith "d" then some (.data (hexD (t.drop 1).toString))
+  else none
+
+def optHex (s : String) : Option Http.Str := if s = "-" then none else some (hexD s)
+
+def runProxy (line : String) : String :=
+  match line.splitOn " | " with
+  | [cfgS, readsS] =>
+    let ct := cfgS.splitOn " "
+    let wf := kv ct "wfail" "-"
+    let wfl : List Nat := if wf = "-" then [] else (wf.splitOn ",").map natOf
+    match Proxy.mkTarget (hexD (kv ct "url" "")) with
+    | none => "CTOR:ValueError"
+    | some tgt =>
+      let c : Proxy.Cfg :=
+        { target := tgt, proxyHttp := optHex (kv ct "http" "-"), proxyHttps := optHex (kv ct "https" "-"),
+          request := hexD (kv ct "req" "") }
+      let e : Proxy.Env :=
+        { connectOk := kv ct "conn" "1" = "1", writeFails := fun k => wfl.contains k,
+          reads := (readsS.splitOn " ").filterMap parseRead, wrapOk := kv ct "wrap" "1" = "1" }
+      " ".intercalate ((Proxy.run c e).map showIo)
+  | _ => "bad-op"
+
+/-- C18: `xport tls=<0|1> poll=<n> sc=<0|1> eof=<n|-> fuel=<n> | <t>:<len> <t>:<len> ...`
+    (payload bytes are opaque to the transport model: only lengths travel) -/
+def runXport (line : String) : String :=
+  match line.splitOn " | " with
+  | [cfgS, arrS] =>
+    let ct := cfgS.splitOn " "
+    let eofS := kv ct "eof" "-"
+    let cfg : Transport.Cfg := { poll := natOf (kv ct "poll" "5"), shortcut := kv ct "sc" "1" = "1" }
+    let arrivals : List (Nat × Bytes) := (arrS.splitOn " ").filterMap fun t =>
+      match t.splitOn ":" with
+      | [a, b] => some (natOf a, List.replicate (natOf b) 0)
+      | _ => none
+    let s := Transport.run cfg (natOf (kv ct "fuel" "1000000"))
+      (Transport.init (kv ct "tls" "0" = "1") arrivals (if eofS = "-" then none else some (natOf eofS)))
+    let showTok : Transport.Tok → String
+      | .pend n => "P" ++ toString n
+      | .wait t0 t1 r k p => "W" ++ toString t0 ++ ":" ++ toString t1 ++ ":" ++ b2s r ++ ":" ++ toString k ++ ":" ++ toString p
+      | .recv t c n => "R" ++ toString t ++ ":" ++ toString c ++ ":" ++ toString n
+    " ".intercalate (s.trace.map showTok ++
+      ["END:stopped=" ++ b2s s.stopped ++ ":fed=" ++ toString ((s.log.map (fun a => a.2.length)).foldl (· + ·) 0) ++
+       ":now=" ++ toString s.now])
+  | _ => "bad-op"
+
 def handle (line : String) : String :=
   if line.startsWith "core " then runCore (line.drop 5).toString
   else if line.startsWith "persist " then runPersist (line.drop 8).toString
+  else if line.startsWith "proxy " then runProxy (line.drop 6).toString
+  else if line.startsWith "xport " then runXport (line.drop 6).toString
   else
     match line.splitOn " " with
     | "utf8" :: args => runUtf8 args
